@@ -54,6 +54,14 @@ class Listen:
         return a, g
 
 
+def _render(msg):
+    """str(msg); a message object whose rendering raises is reported as such, not as a harness crash"""
+    try:
+        return str(msg)
+    except Exception as e:
+        return '<rendering raised %s>' % type(e).__name__
+
+
 def render_expected(cls, pols):
     if cls == 'nop':
         return ''
@@ -68,6 +76,9 @@ def decision_word(rec):
     """does the decision-log record say allowed or rejected?  Judged on the message template (the inquiry's own text
     is an argument), any wording containing allow… xor reject… / den… / refus…"""
     msg = rec.msg if isinstance(rec.msg, str) else rec.getMessage()
+    args = rec.args if isinstance(rec.args, tuple) else ((rec.args,) if rec.args else ())
+    # short plain-string arguments may carry the verdict word; the inquiry object / its text is left out
+    msg += ' ' + ' '.join(a for a in args if isinstance(a, str) and len(a) <= 16)
     low = msg.lower()
     yes = 'allow' in low
     no = any(w in low for w in ('reject', 'denied', 'deny', 'refus', 'forbid'))
@@ -121,11 +132,11 @@ def check_call(out, desc, answer, arecs, grecs, objs, matches, cls, hit=False):
                         'audit-deciders'))
     else:
         want_d = want_d or []
-    if str(cand) != render_expected(cls, want_c):
-        bad.append(('candidates text %r, documented %r' % (str(cand), render_expected(cls, want_c)), 'render-cand'))
+    if _render(cand) != render_expected(cls, want_c):
+        bad.append(('candidates text %r, documented %r' % (_render(cand), render_expected(cls, want_c)), 'render-cand'))
     if cls == 'nop' or want_d is not None:
-        if str(dec) != render_expected(cls, want_d if want_d is not None else []):
-            bad.append(('deciders text %r, documented %r' % (str(dec), render_expected(cls, want_d)), 'render-dec'))
+        if _render(dec) != render_expected(cls, want_d if want_d is not None else []):
+            bad.append(('deciders text %r, documented %r' % (_render(dec), render_expected(cls, want_d)), 'render-dec'))
     return bad
 
 
@@ -183,14 +194,14 @@ def run(ctx):
                 out.nontriv(line)
                 if len(out.samples) < 3 and len(hit) >= 2 and arecs:
                     out.samples.append({'line': line[:300], 'answer': answer, 'audit_effect': arecs[0].effect,
-                                        'candidates': str(arecs[0].candidates), 'deciders': str(arecs[0].deciders),
+                                        'candidates': _render(arecs[0].candidates), 'deciders': _render(arecs[0].deciders),
                                         'msg_class': cls})
             if hit and rng.random() < 0.3:
                 for c2 in ('uid', 'desc', 'count', 'nop'):
                     try:
                         rlines.append('RENDER %s %d %s' % (c2, len(hit), ' '.join(
                             polcase.pol_line(case['policies'][objs.index(o)], o) for o in hit)))
-                        rmeta.append((c2, str(MSG[c2](hit)), desc))
+                        rmeta.append((c2, _render(MSG[c2](hit)), desc))
                     except proto.ProtoError:
                         pass
         # cached guard: decision log on every call (hits included), audit only on a miss
@@ -267,13 +278,22 @@ def run(ctx):
         elif (mm['audit'] is None) != (narecs == 0):
             bad = 'audit presence'
         elif mm['audit'] is not None and got is not None:
+            veto = (not got['allow']) and len(got['cand']) > 0
+            # on a veto the property asks for *a* single non-allow candidate (the direct oracle checks exactly that);
+            # which of several the model names is not prescribed, so deciders are compared otherwise only
             if mm['audit']['allow'] != got['allow'] or mm['audit']['candidates'] != got['cand'] or \
-                    mm['audit']['deciders'] != got['dec']:
+                    (not veto and mm['audit']['deciders'] != got['dec']) or \
+                    (veto and len(mm['audit']['deciders']) != len(got['dec'])):
                 bad = 'audit content'
         if bad:
             f = Failure('disagreement', desc, {'answer': answer, 'audit': got}, m, 'model and implementation differ in '
                         + bad, 'Vakt.C17.audit_deciders', line=line)
             f.signature = 'model:' + bad
+            # on a veto the property asks for *a* single non-allow candidate (the direct oracle checks that); which
+            # one the model names first is not prescribed
+            f.weak = (bad == 'audit content' and mm['audit'] is not None and got is not None and not got['allow'] and
+                      mm['audit']['allow'] == got['allow'] and mm['audit']['candidates'] == got['cand'] and
+                      len(got['dec']) == 1 and got['dec'][0] in got['cand'])
             out.failures.append(f)
     rmodel = ctx.driver.run(rlines) if ctx.driver else []
     for line, (c2, text, desc), m in zip(rlines, rmeta, rmodel):
